@@ -79,6 +79,134 @@ CLAIMED["C11"] = dict(
         "covered by the metamorphic runs only (order statistics); labels are scale dependent by design.",
    technique="Coq proof (multiset-equivalence congruence of the whole carving model) + metamorphic pairs on the real code",
    design="5/C11")
+def _claim(pid, text, note, technique):
+    CLAIMED[pid] = dict(text=text, note=note, technique=technique, design="5/" + pid)
+
+_claim("C04",
+  "Proof over executable models of the label table (get_labels/format_quantiles incl. the digit-selection rule, "
+  "_get_labels_per_values) and of transform for one cell (quantitative first-match lookup, qualitative "
+  "check-and-replace, NaN reinstatement): for every well-formed fitted state and every contained value the output "
+  "is the label of its group (first leader >= v for numbers); float labels are the ranks, distinct; str labels are "
+  "distinct exactly when the formatted (lower, upper) bound pairs are, which the digit rule ensures. Tied to /repo "
+  "on every run: fitted states of all classes (also rebuilt from JSON) are extracted, the training frame is "
+  "transformed and every distinct (cell, output) pair is compared with the model inside Coq.",
+  "Trusted: CPython f'{x:.{n}e}' and str() as per-case tables; pandas replace/select as glue (correspondence "
+  "only); state extraction in the harness. No axioms.",
+  "Coq proof (lookup/refinement lemmas over the C13 invariant) + model/implementation correspondence by vm_compute")
+_claim("C05",
+  "Proof on the same transform model: for a well-formed state whose quantitative leaders end in +inf, EVERY cell "
+  "is either rejected with AssertionError (unseen category without default group, NaN where none at fit) or "
+  "mapped into the fitted label set - never another error, never the raw value; finite numbers are never rejected; "
+  "the +inf sentinel is shown necessary by a witness. Run-time: probe frames (boundaries and their float "
+  "neighbours, +-1e308, +-5e-324, +-inf, unseen categories, injected NaN, empty and single-row frames) on real "
+  "fitted objects, outputs compared with the model and checked against the label set.",
+  "Same trusted base as C04; strings in quantitative columns are outside the property's quantifier (recorded as a "
+  "C19 known finding).",
+  "Coq proof (totality of the transform model under the sentinel premise) + correspondence on probe frames")
+_claim("C06",
+  "Proof over a model of the JSON path (convert to base types with the numpy.inf sentinel, dumps with CPython's key "
+  "stringification as a table, loads with duplicate-key collapse, key re-stringification, GroupedList(dict)): under "
+  "WF, injective key strings and no sentinel-named value, the round trip returns the same leaders and member lists, "
+  "any behaviour that is a function of the state is preserved, and serialising the reloaded object yields the same "
+  "JSON (all classes, after fixes 706e270/1da3036); each hypothesis has a necessity witness. Run-time: every class "
+  "incl. Multiclass/Chained, real json.dumps/loads, transform on train and unseen frames, summary, second dump.",
+  "Trusted: json text<->tree, CPython number->key conversion and str() as tables; meta/history opaque in the model "
+  "(compared in Python). Known finding: a category literally named 'numpy.inf'.",
+  "Coq proof (round-trip law with necessity witnesses) + correspondence on real dumps/loads")
+_claim("C07",
+  "PARTIAL by nature. Proved on the transform model lifted to frames: transforming ANY selection, reordering or "
+  "repetition of rows gives the corresponding rows of the full result; the output keeps X's columns; non-feature "
+  "columns are unchanged; any interleaving of transform calls leaves the fitted object unchanged and returns what "
+  "a single call returns. Run-time on real objects: call histories (full frame, subsets, shuffles, repeated rows, "
+  "single/empty frames, string and offset indices), deep copies of X/y/X_dev/y_dev compared before/after with "
+  "copy=True, fitted-state snapshots after every call, fit_transform vs fit+transform, full transform vs the model.",
+  "Absence of side effects on caller objects, pandas index alignment and sklearn's fit_transform are runtime "
+  "behaviour: checked on every history, not proved.",
+  "Coq proof (row-wise purity by list induction) + call-history exploration on the real objects")
+_claim("C09",
+  "Proof over bit-exact models of find_quantiles (over-represented values, round-half-even new_q, floor of the "
+  "float quantile position), the rare-bucket merging loop (argmin, find_closest_modality with NaN comparisons) and "
+  "the categorical default group: at loop exit every bucket reaches min_freq (min_freq/2 for quantiles) or one "
+  "bucket remains, counts and members are conserved, only adjacent buckets merge (so buckets are contiguous runs), "
+  "the loop terminates with fuel = number of buckets, default group <-> rarer than min_freq or never observed, NaN "
+  "always separate, boundaries are observed values, contain every frequent value, strictly increasing, then +inf. "
+  "Run-time: all four discretizer classes on continuous/discrete/spiked/tied/NaN samples, exact comparison of "
+  "leaders and groups with the model, property counted on transform outputs.",
+  "The 2.5*min_freq clause is checked by counting only (no theorem); aggregates are counted by the harness.",
+  "Coq proof (loop invariants by induction on fuel, bit-exact SpecFloat arithmetic) + correspondence by vm_compute")
+_claim("C14",
+  "Proof over a model of the selection logic (measure pipeline with early stop, NaN filtering, stable descending "
+  "sorts, greedy quantitative/qualitative filters, chained filters, n_best cut, union over measures, per-dtype "
+  "loop) taking exact rational measure/association tables recomputed independently of AutoCarver: output distinct "
+  "and a subset of the inputs, sorted by decreasing measure, at most n_best per measure, pairwise association <= "
+  "thresh_corr within a measure's kept set, every left-out feature has a recorded reason, the strict maximum is "
+  "returned. Run-time: real selectors vs the model (order included, tie-insensitive) and measure tables vs exact "
+  "recomputation within 1e-9.",
+  "Ten behavioural defects are KNOWN FINDINGS (O11, O12, union over measures, ...): the full 'no two returned "
+  "features above thresh_corr' is refuted on the model for two ranking measures. colsample=1 only.",
+  "Coq proof (greedy filter invariants) + correspondence against exact rational recomputation")
+_claim("C15",
+  "Proved: selection is equivariant under any re-encoding that preserves the measure/association tables, independent "
+  "of input order without ties, rank vectors invariant under strictly increasing maps (hence Kruskal H and "
+  "Spearman), |rho| invariant under negation. Run-time: metamorphic pairs on real selectors (negation, rescaling, "
+  "category renaming, row/column permutation, copies and monotone functions of the target).",
+  "kruskal under negation and 'a copy of the target has maximal measure' are covered by the metamorphic runs only; "
+  "RegressionSelector's default measure violates the property (known finding O11).",
+  "Coq proof (equivariance, rank invariance) + metamorphic pairs on the real selectors")
+_claim("C17",
+  "Proof over a model of update_discretizer on one fitted feature (NaN handling, append of unknown values, group / "
+  "replace branches, label refresh) built on the C13 model: every valid edit keeps the order well formed, 'group' "
+  "moves exactly the discarded group into the kept one and leaves every other group unchanged, 'replace' only "
+  "renames, labels after any completed call are those of a fresh fit on the new order, hence transform/summary/"
+  "JSON reload agree after every edit of every finite valid history; upward quantitative merges proved, downward "
+  "ones refuted by a witness. Run-time: random edit histories on real carvers/discretizers, state, labels, "
+  "transform and JSON-reloaded transform compared with the model after each edit.",
+  "Two KNOWN FINDINGS: NaN cannot be re-grouped once merged; quantitative downward merge.",
+  "Coq proof (induction over edit histories, reuse of C13/C04 lemmas) + correspondence after every edit")
+_claim("C18",
+  "Proof over a model of ChainedDiscretizer (known_values flattening and its assertions, unknown handling, level "
+  "loop with frequencies recomputed on the rewritten column, bit-exact frequency test): every hierarchy value is "
+  "kept, the fitted leader of every value follows the level-by-level rule, leaders only climb to ancestors, a value "
+  "stays its own modality iff frequent enough, a rare ancestor group climbs further, unknown values raise or join "
+  "the missing-value group per policy, transform outputs the leader. Unbounded in depth/width/rows. Run-time: "
+  "random forests (2-4 levels), boundary counts, both policies, malformed hierarchies.",
+  "One feature, string hierarchy values, default sentinels.",
+  "Coq proof (induction over the level loop) + correspondence by vm_compute")
+_claim("C19",
+  "Proof over a model of each entry point as an ordered list of checks, crash points, guard and state writes for "
+  "nine classes x init/fit/transform and 13 malformed-input classes: every guarded malformed input is rejected "
+  "with AssertErr, and (generic theorem by induction on the step list, instantiated for the current code) any "
+  "second fit or transform of a fitted object leaves it unchanged. Run-time: every (class, entry, malformed class, "
+  "variant) triple injected into a valid sample before and after a successful fit; exception class and "
+  "values_orders/to_json/transform snapshots compared with the model's prediction.",
+  "The mapping from a real malformed input to the model's boolean record is trusted (harness). Three KNOWN "
+  "FINDINGS: X=None, strings in a quantitative column at transform, OrdinalDiscretizer accepting unknown values.",
+  "Coq proof (frame theorem by induction over the validation pipeline) + exhaustive injection of malformed inputs")
+
+_claim("C03",
+  "Proved on the models: the rare-bucket merging loop only merges neighbours, so every base bucket is a "
+  "contiguous run of the ranking / of the sorted quantiles (any sample, ranking, min_freq); only order-contiguous "
+  "groupings are enumerated and the kept grouping is one of them (missing values added inside one group or alone); "
+  "quantile boundaries are strictly increasing; with float output transform is a non-decreasing step function of "
+  "a quantitative value over the whole carrier (every dyadic number and +-inf), right-closed intervals, last one "
+  "unbounded. Run-time: for every fitted feature of real objects (all classes) the base-level and carve-level "
+  "groups are sent to Coq as positions in the natural order (contiguous_b, proved sound), categorical leaders are "
+  "compared with training target rates, and probe frames (boundaries, nextafter neighbours, midpoints, extremes) "
+  "must give non-decreasing group ranks (monotone_b, proved sound).",
+  "Categorical ordering by target rate is a run-time check only (no theorem). Same trusted base as C04/C09.",
+  "Coq proof (contiguity invariants, monotone lookup) + proved-sound boolean checkers on real fitted states and probes")
+_claim("C08",
+  "PARTIAL. Proved on the models: the quantile search never runs out of fuel and builds a well-formed order, the "
+  "merging loop is total, grouping keeps orders well formed and loses no value; the run-time invariant "
+  "(feature_ok: WF + coverage of training values + strictly increasing leaders ending in +inf) is proved to imply "
+  "the property's invariant and is evaluated in Coq on the IMPLEMENTATION's fitted state. Run-time: degenerate "
+  "inputs (constant, all-missing, near-unique, many rare values, spikes, 2-150 rows, never-observed ordinal "
+  "values) over all classes: exception class, key sets of every per-feature attribute, summary/history/transform "
+  "on the fitted object, dropped features untouched.",
+  "No end-to-end theorem 'fit never raises an internal error' for the whole pandas pipeline: absence of "
+  "internal errors is explored, not proved. Known finding: history() keeps dropped features.",
+  "Coq-evaluated invariant with proved soundness + stage-wise totality/WF theorems + degenerate-input exploration")
+
 NOT_YET = "not yet built in this round: model and correspondence for this property are still to be written (see DESIGN.md section 9 build order)"
 
 checks = []
